@@ -177,7 +177,7 @@ def body():
                 e = np.abs(Bp - W).max() / sc
                 chk.count((label, name, kd, kt, probe), ne >= 2)
                 chk.cov["obligations_replayed"] += 1
-                if e > tol:
+                if not (e <= tol):   # NaN counts as a deviation
                     fail("equivariance:%s:%s" % (kind_act, name), "%s (%s -> dual %s%s) on the transformed grid differs from %s x the permuted original by %.3g" % (
                         name, kd, kt, ", probe kernel" if probe else "", "s^%d" % deg if s != 1 else "1", e))
 
@@ -256,7 +256,7 @@ def body():
                             A = np.asarray(fac(dA, tA).weak_form().to_dense())
                             B = np.asarray(fac(dB, tB).weak_form().to_dense())[np.ix_(pt, pd)]
                             chk.count((label, name, "segment_flip"), True)
-                            if np.abs(A - B).max() > TOL * max(1e-3, np.abs(A).max()):
+                            if not (np.abs(A - B).max() <= TOL * max(1e-3, np.abs(A).max())):   # NaN counts as a deviation
                                 fail("equivariance:flip_segment:%s" % name, "%s with swapped_normals=[%d] differs from the grid with that segment reversed by %.3g (probe kernel)" % (
                                     name, seg, np.abs(A - B).max() / max(1e-3, np.abs(A).max())))
                     par.quadrature.regular, par.quadrature.singular = 4, 4
